@@ -657,6 +657,22 @@ func (env *SpecEnv) call(e *SExpr) specVal {
 			base = fx.heapGet(env.old, "alloc", SInt)
 		}
 		return specVal{And(Ge(root, base), Neq(r, IntLit(0))), tBool}
+	case "allocated":
+		// allocated(x): the object x refers to exists in the current state (its reference lies below the
+		// allocation counter); with fresh() of a later allocation this gives distinctness
+		x := env.expr(e.Args[0])
+		r := x.t
+		if x.t.S == SSlc {
+			r = SlcBase(x.t)
+		}
+		if x.t.S == SIfc {
+			r = IfcPtr(x.t)
+		}
+		root := r
+		for root.Op == "emb" {
+			root = root.Args[0]
+		}
+		return specVal{Lt(root, fx.heapGet(env.st, "alloc", SInt)), tBool}
 	case "typeis":
 		// typeis(x, T): dynamic type of interface value x is T
 		x := env.expr(e.Args[0])
